@@ -128,6 +128,9 @@ class Check(object):
             print("KNOWN-FINDING: property=%s %s %s: %s" % (self.pid, v["key"], v["loc"], v["message"]))
         if self.violations:
             for i, v in enumerate(self.violations):
+                if i >= 25:
+                    print("  ... %d more violations (see evidence / replay files of the first 25)" % (len(self.violations) - 25))
+                    break
                 p = os.path.join(REPLAY, "%s-%s-%d.json" % (self.pid, self.tier, i))
                 with open(p, "w") as f:
                     json.dump(v, f, indent=1, default=str)
